@@ -137,6 +137,7 @@ func (c *Ctx) Load(patterns ...string) {
 				Fatal("type/parse error in %s: %v", p.PkgPath, e)
 			}
 			lowerRangeInt(p)
+			pinNames(p)
 			normalizeComparisons(p)
 		}
 	})
